@@ -1,4 +1,5 @@
 import JmesVerif.Lemmas.Slice
+import JmesVerif.Lemmas.CodeEquiv
 
 /-!
 # C07 — slices select exactly the elements of the start:stop:step rule; negative indexes
@@ -183,6 +184,32 @@ example : sliceList [10, 11, 12] none none (-1) = .ok [12, 11, 10] := by rfl
 example : pySlice [10, 11, 12, 13, 14] (some (-2)) (some (-100)) (-2) = [13, 11] := by decide
 example : indexList [10, 11, 12] (-1) = some 12 ∧ indexList [10, 11, 12] (-4) = none := by decide
 
+
+/-! ### the code as re-translated from the Rust source on every run
+
+`Generated/Code.lean` is written by `tools/rs2lean.py` from the *bodies* of `slice`, `adjust_slice_endpoint`
+(variable.rs), `get_index`, `get_negative_index` and the `Ast::Index` arm of `interpret`, with **checked**
+`i32` / `usize` arithmetic, casts and indexing at every site.  `Lemmas/CodeEquiv.lean` proves the translated
+definitions equal to the hand-written model above; hence what the source says *today* computes Python's slice
+and index rule, without overflow, out-of-bounds access or non-termination, for every array of up to `i32::MAX`
+elements, every start / stop in the `i32` range and every non-zero step. -/
+open Generated.Code in
+theorem C07_translated_slice_eq_python {α : Type} (fuel : Nat) (xs : List α) (start stop : Option Int) (step : Int)
+    (hfuel : xs.length + 1 ≤ fuel) (hlen : (xs.length : Int) ≤ I32_MAX)
+    (hstart : OptInI32 start) (hstop : OptInI32 stop) (hstep : step ≠ 0) :
+    slice fuel xs start stop step = .ok (pySlice xs start stop step) := by
+  rw [gen_slice_eq fuel xs start stop step hfuel hlen hstart hstop hstep,
+    C07_slice_eq_python xs start stop step hstep hlen]
+
+open Generated.Code in
+theorem C07_translated_index_eq_python {α : Type} (xs : List α) (idx : Int) (h1 : I32_MIN < idx) (h2 : idx ≤ I32_MAX) :
+    index xs idx = .ok (pyIndex xs idx) := by
+  rw [gen_index_eq xs idx h1 h2, C07_index_eq_python]
+
+open Generated.Code in
+example : slice 4 [1, 2, 3] (some 2147483647) (some (-2147483648)) (-1) = .ok (pySlice [1, 2, 3] (some 2147483647) (some (-2147483648)) (-1)) :=
+  C07_translated_slice_eq_python 4 _ _ _ _ (by decide) (by decide) (by in_range) (by in_range) (by decide)
+
 end JmesVerif
 
 #print axioms JmesVerif.C07_slice_eq_python
@@ -190,3 +217,5 @@ end JmesVerif
 #print axioms JmesVerif.C07_positions_in_bounds
 #print axioms JmesVerif.C07_pyRange_strict
 #print axioms JmesVerif.C07_index_eq_python
+#print axioms JmesVerif.C07_translated_slice_eq_python
+#print axioms JmesVerif.C07_translated_index_eq_python
